@@ -234,7 +234,7 @@ func (r *readableSet[ElementType]) SubtractReactive(others ...ReadableSet[Elemen
 func (r *readableSet[ElementType]) WithElements(setup func(element ElementType) (teardown func()), condition ...func(ElementType) bool) (teardown func()) {
 	teardownFunctions := make(map[ElementType]func())
 
-	return lo.Batch(
+	teardownAll := lo.Batch(
 		r.OnUpdate(func(appliedMutations ds.SetMutations[ElementType]) {
 			appliedMutations.AddedElements().Range(func(element ElementType) {
 				if len(condition) == 0 || condition[0](element) {
@@ -261,6 +261,14 @@ func (r *readableSet[ElementType]) WithElements(setup func(element ElementType) 
 			}
 		},
 	)
+
+	// the teardown functions are kept in an unprotected map: make sure that the teardown only runs once (a second
+	// caller waits until the first one has finished)
+	var teardownOnce sync.Once
+
+	return func() {
+		teardownOnce.Do(teardownAll)
+	}
 }
 
 // endregion ///////////////////////////////////////////////////////////////////////////////////////////////////////////
